@@ -3,6 +3,7 @@ EXTENDS Miner, TLC
 CONSTANTS K1s, Counts, NClasses, Shifts
 ShiftsMC == {-1, 0, 1, 3}
 ShiftsLow == {-3, -2}
+ShiftsAll == ShiftsMC \cup ShiftsLow     \* incl. collectives that lie entirely below the endurance limit
 VARIABLES c, coll, out
 vars == <<c, coll, out>>
 Curve(k) == [k1 |-> k, a |-> 4, b |-> 20]
@@ -12,7 +13,9 @@ Out(cc, q) == [d_orig |-> Damage(cc, "original", q), d_haib |-> Damage(cc, "haib
                per_class_elem |-> [i \in 1..Len(q) |-> ClassDamage(cc, "elementary", q[i])],
                gassner_elem |-> GassnerElementaryDamageExp(cc, q), gassner_haib |-> GassnerHaibachDamageExp(cc, q),
                maxocc |-> MaxOcc(q)]
-Init == /\ c \in {Curve(k) : k \in K1s} /\ coll \in {q \in Colls : Total(q) > 0} /\ out = Out(c, coll)
+Init == /\ c \in {Curve(k) : k \in K1s} /\ coll \in {q \in Colls : Total(q) > 0}
+        /\ (coll[1][1] < 1 => c.k1 = 2)          \* the lowest load levels only with k_1 = 2: cycle exponents stay within Scale (32-bit sums)
+        /\ out = Out(c, coll)
 Next == UNCHANGED vars
 Spec == Init /\ [][Next]_vars
 
